@@ -3,6 +3,8 @@ mod handshake;
 mod inbound;
 mod operations;
 mod state;
+#[cfg(feature = "verif-hooks")]
+mod verif;
 
 #[cfg(test)]
 mod tests;
@@ -16,6 +18,8 @@ use heapless::String;
 use super::{ConnectEvent, Io, OpKind, OpStatus};
 
 use state::{RuntimeState, SessionData};
+#[cfg(feature = "verif-hooks")]
+pub use verif::VerifRuntime;
 
 /// One long-lived MQTT client session.
 ///
